@@ -236,3 +236,40 @@ PROPS['C13'] = dict(
           "lifecycle request is made in a state where it cannot apply"),
     assumptions=['wall-clock time enters only as lower bounds (explicit waits of 260 ms > debounce 200 ms)'],
 )
+
+
+def oracle_c03(res, i):
+    cmd = res['script'][i].split()
+    out = res['impl'][i]
+    if cmd[0] == 'dmgsweep' and not out.startswith('sweep ok'):
+        return f'MISMATCH reopen on a damaged index changed behaviour: {out}'
+    if cmd[0] in ('restart', 'open') and out != 'ok':
+        return f'MISMATCH {cmd[0]}: {out}'
+    return None
+
+
+def restart_features(lines):
+    f = kv_features(lines)
+    for l in lines:
+        t = l.split()
+        if t[0] == 'dmgsweep':
+            f.add('dmgsweep ' + t[1].split(':')[0] + (' lazy' if 'lazy' in t else ''))
+        if t[0] == 'restart':
+            f.add(l)
+    return f
+
+
+PROPS['C03'] = dict(
+    gen=lambda rng, tier: gen.restart_scenario(rng, size=tier),
+    p_cmds={'r', 'c', 'ram', 'ra', 'rw', 'counts', 'dmgsweep', 'restart'},
+    oracle_cmds={'r', 'c', 'ram', 'ra', 'rw', 'counts', 'states'}, py_oracle=oracle_c03,
+    count={'quick': 64, 'thorough': 600}, timeout=1800,
+    nontrivial=lambda lines: any(l.startswith('dmgsweep') for l in lines) and len({l.split()[1] for l in lines if l[:2] in ('w ', 'd ')}) >= 2,
+    features=restart_features,
+    rule=("random histories with blob switches, deletes into closed blobs, settle points and restarts; at random "
+          "points the storage is closed and every index file is damaged in a copy of the directory (removed, header "
+          "only, written flag cleared, blob_size smaller/larger, truncated by 1/61/half, truncated to 0/82/84 bytes, "
+          "thorough: truncated at every 1st/7th/13th length) and reopened eagerly or lazily; all answers and "
+          "next_blob_id are compared with the values before the close; non-trivial = a sweep over >=2 keys"),
+    assumptions=['same-length corruption of an index body is outside the property damage list'],
+)
